@@ -254,6 +254,32 @@ func (w *World) Call(recipient, caller []byte, function string, args [][]byte, v
 	return res
 }
 
+// Query runs a view function and discards its output (nothing is committed).
+func (w *World) Query(recipient, caller []byte, function string, args [][]byte) (vmcommon.ReturnCode, [][]byte) {
+	input := &vmcommon.ContractCallInput{
+		VMInput: vmcommon.VMInput{
+			CallerAddr:  caller,
+			Arguments:   args,
+			CallValue:   big.NewInt(0),
+			GasProvided: 1000000000,
+			CallType:    vmcommon.DirectCall,
+		},
+		RecipientAddr: recipient,
+		Function:      function,
+	}
+	w.Eei.CleanCache()
+	w.Eei.SetSCAddress(recipient)
+	w.Eei.SetGasProvided(input.GasProvided)
+	contract, err := w.Eei.GetContract(recipient)
+	if err != nil {
+		return vmcommon.ExecutionFailed, nil
+	}
+	code := contract.Execute(input)
+	out := w.Eei.CreateVMOutput()
+	w.Eei.CleanCache()
+	return code, out.ReturnData
+}
+
 // Init runs the deploy-time init function of a contract (genesis does this through DeploySystemSC / direct Execute).
 func (w *World) Init(recipient, caller []byte, args [][]byte) vmcommon.ReturnCode {
 	input := &vmcommon.ContractCallInput{
